@@ -118,6 +118,10 @@ def builtins():
         kind = {'IntV': 'int', 'BoolV': 'bool', 'StrV': 'str', 'TupleV': 'tuple', 'ListV': 'list'}.get(type(v).__name__)
         if isinstance(v, ObjV) and getattr(v, 'isinstance_fn', None) is not None:
             return BoolV(v.isinstance_fn(names))
+        if isinstance(v, ObjV) and v.cls in ('LabelIterable', 'Iterable'):
+            # an argument the contract abstracts as "any iterable the caller may pass": its concrete type is not known, so a type test
+            # on it is undetermined -- both outcomes are explored (soundness repair after seeded change C01-N: a list/tuple fast path)
+            return BoolV(p.fresh_bool('isinstance(%s)' % v.name))
         if isinstance(v, ObjV):
             kind = v.cls
         if kind is None:
